@@ -15,7 +15,7 @@ SCALARS = ['_Bool', 'char', 'signed char', 'unsigned char', 'short', 'unsigned s
 IDS = [('_Bool', 1), ('char', 2), ('signed char', 3), ('unsigned char', 4), ('short', 5), ('unsigned short', 6), ('int', 7), ('unsigned', 8), ('long', 9), ('unsigned long', 10), ('long long', 11), ('unsigned long long', 12),
        ('float', 13), ('double', 14), ('int *', 20), ('const int *', 21), ('char *', 22), ('const char *', 23), ('void *', 24), ('long *', 25), ('double *', 26), ('struct S', 27), ('struct S *', 28), ('int (*)[3]', 29),
        ('int **', 30), ('unsigned char *', 31), ('short *', 32), ('int (*)(int)', 33), ('const void *', 34), ('unsigned *', 36), ('float *', 37), ('const struct S *', 38), ('_Bool *', 39), ('struct S **', 40),
-       ('unsigned long *', 41), ('long long *', 42), ('signed char *', 43), ('unsigned short *', 44), ('unsigned long long *', 45), ('long double', 51), ('const struct S **', 52), ('struct S (*)(void)', 53), ('unsigned short', 6 + 100) if False else ('int (*)[3][1]', 54), ('char (*)[5]', 55), ('char (*)[4]', 56), ('struct S (*)[2]', 57), ('unsigned char **', 58), ('const double *', 47), ('char **', 48), ('int (*)[2][3]', 49), ('int (**)(int)', 50)]
+       ('unsigned long *', 41), ('long long *', 42), ('signed char *', 43), ('unsigned short *', 44), ('unsigned long long *', 45), ('long double', 51), ('const struct S **', 52), ('struct S (*)(void)', 53), ('unsigned short', 6 + 100) if False else ('int (*)[3][1]', 54), ('char (*)[5]', 55), ('char (*)[4]', 56), ('int (*)[2]', 60), ('unsigned short *', 61) if False else ('int *const *', 62), ('char (*)[2]', 63), ('const int (*)[3]', 64), ('unsigned int (*)[2]', 65), ('struct S (*)[2]', 57), ('unsigned char **', 58), ('const double *', 47), ('char **', 48), ('int (*)[2][3]', 49), ('int (**)(int)', 50)]
 
 PRE = 'int printf(const char *, ...);\nstruct S { int m; unsigned bf3 : 3; int sb : 7; unsigned bf32 : 32; long lm; char ca[4]; struct S *next; double dm; unsigned char uc; };\nenum E { E0, E1 = 5 };\ntypedef enum E ET;\n' + \
       ''
@@ -30,7 +30,7 @@ ATOMS = ['v%d' % i for i in range(len(SCALARS))] + ['pi', 'pci', 'pc', 'pcc', 'p
          's.m', 's.bf3', 's.sb', 's.bf32', 's.lm', 's.ca', 's.next', 's.dm', 's.uc', 'ps->m', 'ps->bf3', 'ps->next', 'as[1].lm', 'cs.m', 'ai[1]', 'aai[1]', 'aai[1][2]', 'ac[0]', 'E1', 'fn(1)', 'pfn(2)', '*pi', '*pc', '*ps', '*ppi',
          '0', '1', '1u', '1L', '1uL', '1LL', '1uLL', '2147483648', '0x80000000', '0xffffffffff', "'a'", "L'a'", '"s"', '1.0', '1.0f', '(void *)0', '(char)1', '(short)1', '(unsigned char)1', 'sizeof(int)', '1 == 2', '!v6', '-v1', '~v4', '+v5', '&v6', '&s', '&ai', '&ai[0]', '&fn', '*&v9', '(long)pi', '(int *)pv',
          '(struct S){0}', '(struct S){0}.m', '(int[]){1, 2}', '(int[2]){1}[0]', '&(int){3}', '(char){1}', 'fs()', 'fs().m', 'fs().ca', 'fs().bf3', 'fps()->lm', 'fps()->ca', '*fps()', 'vld', '1.0L', '_Alignof(long)', 'sizeof(struct S)', 'sizeof ai',
-         'sizeof(char[3])', '&*pi', '*&ai', '&ai[1]', '&aai[1]', '*aai', '**aai', '"str"[1]', '*"s"', 'u\'a\'', 'U\'a\'', 'u8\'a\'', 'L"w"', 'u8"s"', '__builtin_offsetof(struct S, lm)', '(_Bool)2', '(enum E)1',
+         'sizeof(char[3])', '&*pi', '*&ai', '&ai[1]', '&aai[1]', '*aai', '**aai', '"str"[1]', '*"s"', 'u\'a\'', 'U\'a\'', 'L"w"', '__builtin_offsetof(struct S, lm)', '(_Bool)2', '(enum E)1',
          '(void)0', 'fn', '*fn', '&*fn', '(*pfn)(1)', '(&fn)(1)', 'v13 ? 1 : 2.0f', 'cs', 'cs.next', '&cs', '&cs.m', 's.next->next', '*s.next', 'as[0]', '&as[1]', 'as + 1', '(const int *)pi', '(const char *)pc']
 BIN = ['+', '-', '*', '/', '%', '<<', '>>', '&', '|', '^', '<', '>', '<=', '>=', '==', '!=', '&&', '||', ',']
 ASSIGN = ['=', '+=', '-=', '*=', '/=', '%=', '<<=', '>>=', '&=', '|=', '^=']
